@@ -18,7 +18,8 @@ from concurrent.futures import ThreadPoolExecutor
 import vf
 
 MUTANTS = ["response-is-request", "no-stream-events", "constant-name", "ignores-updates-only", "no-initial-value",
-           "rejected-update-writes", "get-ignores-mask", "get-writes", "other-delete-ends-streams"]
+           "rejected-update-writes", "get-ignores-mask", "get-writes", "other-delete-ends-streams",
+           "late-timer-overwrites"]
 SOFT = "pull-initial-value-not-received-in-time"
 METHOD_RE = re.compile(r"^func \(\w+ \*?(\w+)\) (Get|Update|Pull)(\w*)\(", re.M)
 
@@ -132,19 +133,11 @@ def run(ctx):
         print("STALE registry entry (no such source file in %s): %s" % (vf.REPO, u))
 
     # ---- MC: the relations hold on the reference machine and reject every seeded defect ---------------
-    mc = ctx.mc("StackMC", "StackMC.cfg", deadlock=False, workers=vf.NCPU, timeout=3000,
-                consts={"NF": 2, "MaxId": 1, "MaxSteps": 5 if thorough else 3,
-                        "Mutants": "{%s}" % ", ".join('"%s"' % m for m in MUTANTS)})
-    caught = {}
-    for line in mc.out.splitlines():
-        if line.startswith('"CAUGHT '):
-            s = json.loads(line)
-            name, _, clauses = s[len("CAUGHT "):].partition(" ")
-            caught.setdefault(name, set()).update(re.findall(r'"([^"]+)"', clauses))
-    missing = [m for m in MUTANTS if m not in caught]
-    if missing:
-        raise vf.Inconclusive("StackMC: seeded defects not rejected by the relations: %s" % missing)
-    ctx.cov["model_mutants_rejected_by"] = {k: sorted(v) for k, v in sorted(caught.items())}
+    # (runs in the background while the histories are generated and replayed; joined before the trace check)
+    mc_pool = ThreadPoolExecutor(max_workers=1)
+    mc_future = mc_pool.submit(lambda: ctx.mc("StackMC", "StackMC.cfg", deadlock=False, workers=max(2, vf.NCPU // 2), timeout=3000,
+                                              consts={"NF": 2, "MaxId": 1, "MaxSteps": 5 if thorough else 3,
+                                                      "Mutants": "{%s}" % ", ".join('"%s"' % m for m in MUTANTS)}))
 
     # ---- Gen ----------------------------------------------------------------------------------------
     ncases = 12000 if thorough else 260
@@ -183,6 +176,20 @@ def run(ctx):
         m = r["meta"]
         if m["aborted"] or m["unsynced"]:
             target_notes.setdefault(r["tid"], []).append(m)
+
+    mc = mc_future.result()
+    mc_pool.shutdown()
+    caught = {}
+    for line in mc.out.splitlines():
+        if line.startswith('"CAUGHT '):
+            s = json.loads(line)
+            name, _, clauses = s[len("CAUGHT "):].partition(" ")
+            caught.setdefault(name, set()).update(re.findall(r'"([^"]+)"', clauses))
+    missing = [m for m in MUTANTS if m not in caught]
+    if missing:
+        raise vf.Inconclusive("StackMC: seeded defects not rejected by the relations: %s" % missing)
+    ctx.cov["model_mutants_rejected_by"] = {k: sorted(v) for k, v in sorted(caught.items())}
+
 
     # ---- Trace ------------------------------------------------------------------------------------------
     obs = []
@@ -256,10 +263,16 @@ def run(ctx):
             d["sub_field_masked_gets"] = d.get("sub_field_masked_gets", 0) + bool(o["mask"]["nested"])
         elif o["op"] == "OpenPull":
             d["pulls_opened"] += 1
+        elif o["op"] in ("TimedUpdate", "Wait"):
+            d[o["op"]] = d.get(o["op"], 0) + 1
         elif o["op"] == "Other":
             d["other_record_deleted_or_created"] = d.get("other_record_deleted_or_created", 0) + 1
         d["stream_deliveries_checked"] += sum(1 for s in o["streams"] if s["awaited"])
-        nontrivial = (o["op"] in ("Update", "Other")) or (o["op"] == "Get" and not o["mask"]["nil"]) or any(s["awaited"] for s in o["streams"])
+        if o["op"] == "OpenPull" and not o["mask"]["nil"]:
+            d["masked_pulls"] = d.get("masked_pulls", 0) + 1
+        if "between" in o["note"] and o["op"] == "Update":
+            d["pulls_opened_between_commit_and_publication"] = d.get("pulls_opened_between_commit_and_publication", 0) + 1
+        nontrivial = (o["op"] in ("Update", "Other", "TimedUpdate", "Wait")) or (o["op"] == "OpenPull" and not o["mask"]["nil"]) or (o["op"] == "Get" and not o["mask"]["nil"]) or any(s["awaited"] for s in o["streams"])
         if nontrivial:
             ctx.distinct((o["tgt"], o["op"], o["code"], o["mask"], o["val"], changed, o["pre"]["v"] == o["post"]["v"],
                           [(s["uo"], s["fresh"], s["quiet"], s["opened"], len(s["msgs"])) for s in o["streams"]]))
@@ -290,14 +303,14 @@ def run(ctx):
 MANIFEST = {
     "engine": "spec/Stack.tla + StackMC/StackGen/StackTrace.tla (TLC) + harness 'stackx'",
     "technique": "TLA+ relations between client observations of a register behind Wrap(router(Wrap(server))); TLC MC of a "
-                 "reference register with streams (relations hold, 9 seeded defects rejected); TLC-generated client histories "
+                 "reference register with streams (relations hold, 10 seeded defects rejected); TLC-generated client histories "
                  "replayed on every trait server found in the tree; TLC validates every recorded step",
     "text": "Stack.tla states what the property text demands of one client step given the unmasked Get before and after: "
             "a successful Update's response is the next Get; a masked Get is the projection of the unmasked one; a new Pull "
             "starts with the current value unless updates-only (an updates-only stream must not start with it); an Update whose "
             "response differs from the value before appears on every open stream with the response's value and the Pull "
             "request's name; a rejected (or crashing) Update leaves Get unchanged; a panic is never an answer. TLC checks these "
-            "relations on a reference machine whose server side is as free as the text leaves it and shows each of 9 seeded "
+            "relations on a reference machine whose server side is as free as the text leaves it and shows each of 10 seeded "
             "defects is rejected. TLC then prints random histories; stackx builds, per server of its registry (16 constructions "
             "of 14 server types in 13 packages, compared on every run with a scan of pkg/trait), the package's own "
             "WrapApi(NewApiRouter{2 names -> WrapApi(server)}) stack, drives it by full method name with requests built through "
